@@ -12,7 +12,7 @@ RULE = ("NetSpecs with queue capacities from {0,1,2,3,inf}, system capacity 1..6
         "after every event populations are within capacity.  Non-trivial: >= 1 rejection and >= 1 admission at population "
         "capacity-1; distinct by spec digest.")
 ASSUMPTIONS = ["the iff clause is asserted for fixed-server nodes; for scheduled nodes only the upper bound queue capacity + max servers (S1)"]
-WALL = {"quick": 50, "thorough": 540}
+WALL = {"quick": 150, "thorough": 540}
 
 
 def nontrivial(a, spec, res):
@@ -28,4 +28,4 @@ def subchecks(tier):
     prof = common.full_profile(allowed=allowed, load="heavy")
     prof.weights.update({"capacity": 0.9, "system_capacity": 0.35, "batching": 0.4, "baulking": 0.25, "zero_servers": 0.15, "ps": 0.05})
     return [system_subcheck("lattice", prof, lambda spec: [Capacity(spec)], nontrivial, classes=classes, obs=True,
-                            n={"quick": 3200, "thorough": 50000}, rule="capacitated lattice; admission log vs spec capacity")]
+                            n={"quick": 9600, "thorough": 50000}, rule="capacitated lattice; admission log vs spec capacity")]
